@@ -427,6 +427,39 @@ where
     })
 }
 
+/// the same with the deltas in another representation of the same lattice (the usual way deltas
+/// arrive: a singleton / array / vec / option backed collection merged into a hash or btree one)
+fn bim4<A, DA, B, DB, F, O>(mut f: F, case: &Value) -> Value
+where
+    F: LatticeBimorphism<A, B, Output = O> + LatticeBimorphism<DA, B, Output = O> + LatticeBimorphism<A, DB, Output = O>,
+    A: Canon + Clone + Merge<DA>,
+    DA: Canon + Clone,
+    B: Canon + Clone + Merge<DB>,
+    DB: Canon + Clone,
+    O: Out + Clone + Merge<O> + PartialEq,
+{
+    let a = A::from_json(&case["a"]);
+    let da = DA::from_json(&case["da"]);
+    let b = B::from_json(&case["b"]);
+    let db = DB::from_json(&case["db"]);
+    let ab: O = f.call(a.clone(), b.clone());
+    let dab: O = f.call(da.clone(), b.clone());
+    let adb: O = f.call(a.clone(), db.clone());
+    let mut am = a.clone();
+    am.merge(da.clone());
+    let mut bm = b.clone();
+    bm.merge(db.clone());
+    let l: O = f.call(am, b.clone());
+    let ml = Merge::merge_owned(ab.clone(), dab.clone());
+    let r: O = f.call(a.clone(), bm);
+    let mr = Merge::merge_owned(ab.clone(), adb.clone());
+    json!({
+        "ab": ab.oj(), "dab": dab.oj(), "adb": adb.oj(),
+        "l": l.oj(), "ml": ml.oj(), "r": r.oj(), "mr": mr.oj(),
+        "eq_l": l == ml, "eq_r": r == mr,
+    })
+}
+
 type Runner = Box<dyn Fn(&Value) -> Value>;
 struct Registry {
     names: Vec<String>,
@@ -443,6 +476,22 @@ impl Registry {
         let n = format!("{}|{}|{}@{}", shape, A::name(), B::name(), rust);
         self.names.push(n.clone());
         self.run.insert(n, Box::new(move |case| bim::<A, B, F>(mk(), case)));
+    }
+}
+
+impl Registry {
+    fn add4<A, DA, B, DB, F, O>(&mut self, shape: &str, rust: &str, mk: fn() -> F)
+    where
+        F: LatticeBimorphism<A, B, Output = O> + LatticeBimorphism<DA, B, Output = O> + LatticeBimorphism<A, DB, Output = O> + 'static,
+        A: Canon + Clone + Merge<DA> + 'static,
+        DA: Canon + Clone + 'static,
+        B: Canon + Clone + Merge<DB> + 'static,
+        DB: Canon + Clone + 'static,
+        O: Out + Clone + Merge<O> + PartialEq + 'static,
+    {
+        let n = format!("{}|{}|{}|{}|{}@{}", shape, A::name(), B::name(), DA::name(), DB::name(), rust);
+        self.names.push(n.clone());
+        self.run.insert(n, Box::new(move |case| bim4::<A, DA, B, DB, F, O>(mk(), case)));
     }
 }
 
@@ -505,6 +554,17 @@ fn registry() -> Registry {
     r.add::<MH<MH<SH>>, MH<MH<SH>>, KH<KH<CH>>>("(Keyed (Keyed Cart))", "Keyed<HashMap,Keyed<HashMap,Cartesian<HashSet>>>(MH<MH<SH>>,MH<MH<SH>>)", || KeyedBimorphism::new(KeyedBimorphism::new(CH::default())));
     r.add::<MB<MH<SB>>, MH<MB<SB>>, KB<KH<CB>>>("(Keyed (Keyed Cart))", "Keyed<BTreeMap,Keyed<HashMap,Cartesian<BTreeSet>>>(MB<MH<SB>>,MH<MB<SB>>)", || KeyedBimorphism::new(KeyedBimorphism::new(CB::default())));
     r.add::<MH<MB<MH<SH>>>, MB<MH<MH<SH>>>, KH<KB<KH<CH>>>>("(Keyed (Keyed (Keyed Cart)))", "Keyed<HashMap,Keyed<BTreeMap,Keyed<HashMap,Cartesian<HashSet>>>>", || KeyedBimorphism::new(KeyedBimorphism::new(KeyedBimorphism::new(CH::default()))));
+    // deltas in singleton / array / vec / option backed representations
+    r.add4::<SH, SetUnion<SingletonSet<K>>, SB, SetUnion<ArraySet<K, 2>>, CH, SetUnion<PH>>(
+        "Cart", "Cartesian<HashSet>(SH+Singleton,SB+Array2)", CH::default);
+    r.add4::<SB, SetUnion<OptionSet<K>>, SH, SetUnion<SingletonSet<K>>, CB, SetUnion<PB>>(
+        "Cart", "Cartesian<BTreeSet>(SB+Option,SH+Singleton)", CB::default);
+    r.add4::<MH<SH>, MapUnion<SingletonMap<K, SH>>, MH<SH>, MapUnion<VecMap<K, SH>>, KH<CH>, MapUnion<HashMap<K, SetUnion<PH>>>>(
+        "(Keyed Cart)", "Keyed<HashMap,Cartesian<HashSet>>(MH<SH>+SingletonMap,MH<SH>+VecMap)", || KeyedBimorphism::new(CH::default()));
+    r.add4::<MB<SB>, MapUnion<ArrayMap<K, SB, 2>>, MB<SB>, MapUnion<OptionMap<K, SB>>, KB<CB>, MapUnion<BTreeMap<K, SetUnion<PB>>>>(
+        "(Keyed Cart)", "Keyed<BTreeMap,Cartesian<BTreeSet>>(MB<SB>+ArrayMap2,MB<SB>+OptionMap)", || KeyedBimorphism::new(CB::default()));
+    r.add4::<MH<MH<SH>>, MapUnion<SingletonMap<K, MapUnion<SingletonMap<K, SH>>>>, MH<MH<SH>>, MapUnion<VecMap<K, MH<SH>>>, KH<KH<CH>>, MapUnion<HashMap<K, MapUnion<HashMap<K, SetUnion<PH>>>>>>(
+        "(Keyed (Keyed Cart))", "Keyed<HashMap,Keyed<HashMap,Cartesian>>(MH<MH<SH>>+Singleton<Singleton>,MH<MH<SH>>+VecMap)", || KeyedBimorphism::new(KeyedBimorphism::new(CH::default())));
     // PairBimorphism
     r.add::<SH, SB, PairOf<SH, SB>>("Pair", "Pair(SH,SB)", pair_of);
     r.add::<MH<SH>, WithBot<SH>, PairOf<MH<SH>, WithBot<SH>>>("Pair", "Pair(MH<SH>,WithBot<SH>)", pair_of);
